@@ -136,3 +136,102 @@ for mode in (MM.IGNORE, MM.IMMEDIATE, MM.SPLIT_WORDS):
 
         c.setup = setup
         con.cases.append(c)
+
+
+# ---- Memory._config_: the storage of every mask mode is created through the configured qualifier -------------------------------
+# C04: a memory configured with noreset=True keeps its content while reset is active -- its storage arrays are NoresetSignals in
+# EVERY mask mode (one array of words, or `word_stride` arrays of address units for SPLIT_WORDS).  C20: the layout of the storage
+# (element width, element count, number of lanes) is what the read / write contracts above assume.
+from cohdl import BitVector as _BV, Null as _Null  # noqa: E402
+
+CONFIG_PROPS = ("C04", "C20")
+MISSING = I._MISSING
+
+
+class _Q:
+    """Signal / NoresetSignal stand-in: Q[type](initial) creates one storage object"""
+
+    def __getitem__(self, t):
+        return None
+
+    def __call__(self, initial):
+        return None
+
+
+class _StdStub:
+    """the `std` namespace as far as _config_ uses it: std.Array[elem, count]"""
+
+
+class _ArrayStub:
+    def __getitem__(self, key):
+        return None
+
+
+class _Storage:
+    """one created storage array"""
+
+
+I.register_model(_Q.__getitem__, lambda it, self, t: SObj(_Q, f_kind=self.fields["f_kind"], f_type=t))
+I.register_model(_Q.__call__, lambda it, self, initial: SObj(_Storage, f_kind=self.fields["f_kind"], f_type=self.fields["f_type"], f_initial=initial))
+I.register_model(_ArrayStub.__getitem__, lambda it, self, key: ("array",) + tuple(key))
+I.CLS_ATTR_MODELS[REG.Memory] = lambda it, cls, name: cls.params.get(name, MISSING) if hasattr(cls, "params") else MISSING
+
+
+def config_spec(mode, noreset, stride, initial):
+    def spec(sx, self, **kw):
+        real = sx.real_args[0]
+        kind = "noreset" if noreset else "signal"
+        eff = MM.IMMEDIATE if mode is None else mode
+
+        def is_storage(s, elem_width):
+            if not (isinstance(s, SObj) and s.kind is _Storage and s.fields["f_kind"] == kind and s.fields["f_initial"] is initial):
+                return False
+            t = s.fields["f_type"]
+            if not (isinstance(t, tuple) and len(t) == 3 and t[0] == "array" and t[2] == 16):
+                return False
+            elem = t[1]  # BitVector[n]: the real class, or the parametrised-class value of the core model
+            w = elem.params.get("width") if hasattr(elem, "params") else getattr(elem, "_width", None)
+            base = elem.kind if hasattr(elem, "kind") else elem
+            return w == elem_width and isinstance(base, type) and issubclass(base, _BV)
+
+        def holds(res):
+            f = real.fields
+            if __import__("os").environ.get("PYVC_DEBUG_CFG"):
+                print("DEBUGCFG", {k: v for k, v in f.items() if k.startswith("_m")}, getattr(f.get("_mem"), "fields", None))
+            if f.get("_mask_mode") is not eff:
+                return False
+            if eff is MM.SPLIT_WORDS:
+                lanes = f.get("_mem_list")
+                return isinstance(lanes, list) and len(lanes) == stride and all(is_storage(s, 8) for s in lanes)
+            return is_storage(f.get("_mem"), 8 * stride)
+
+        return C.Pred(holds, "storage created with NoresetSignal iff noreset, in every mask mode; one word array or `word_stride` unit arrays")
+
+    return spec
+
+
+_cfg = contract(f"{MOD}:Memory.<_config_ (the function wrapped by _config_wrapper)>", CONFIG_PROPS)
+_cfg.custom_fn = REG.Memory.__dict__["_cohdlstd_wrappedconfig"]  # RegisterObject.__init_subclass__ replaces _config_ by a wrapper and keeps the body here
+for mode in (None, MM.IMMEDIATE, MM.IGNORE, MM.READBACK, MM.SPLIT_WORDS):
+    for noreset in (False, True):
+        for stride in (4, 2):
+            for initial, iname in ((None, "None"), (_Null, "Null")):
+                def mk_self(env, stride=stride):
+                    tools = SObj(_Stub, f_role="tools", _word_stride_=stride, _addr_unit_width_=8)
+                    return SObj(I.SCls(REG.Memory, _word_count_=16) if hasattr(I, "SCls") else REG.Memory, _register_tools_=tools, f_word_width=8 * stride)
+
+                kw = {"initial": Built([], (lambda v: lambda env: v)(initial), lambda a: iname, lambda a: None), "noreset": Built([], (lambda v: lambda env: v)(noreset), lambda a: repr(noreset), lambda a: None)}
+                if mode is not None:
+                    kw["mask_mode"] = Built([], (lambda v: lambda env: v)(mode), lambda a: "mode", lambda a: None)
+                c = Case(f"{'default' if mode is None else mode.name},noreset={noreset},{stride}-lanes,initial={iname}", [Built([], mk_self, lambda a: "<memory>", lambda a: None)], config_spec(mode, noreset, stride, initial), kwargs=kw)
+                c.native = False
+                c.models = [(REG.RegisterObject.__dict__["_word_width_"].__func__, lambda it, cls: it.word_width)]
+
+                def _cfg_setup(it, ctx, args, env):
+                    it.word_width = args[0].fields["f_word_width"]
+                    ctx.global_overlay[(MOD, "Signal")] = SObj(_Q, f_kind="signal")
+                    ctx.global_overlay[(MOD, "NoresetSignal")] = SObj(_Q, f_kind="noreset")
+                    ctx.global_overlay[(MOD, "std")] = SObj(_StdStub, Array=SObj(_ArrayStub))
+
+                c.setup = _cfg_setup
+                _cfg.cases.append(c)
